@@ -9,6 +9,40 @@ ASSUME = ["TLC evaluates the relation 'cat' (out(A;B) = out(A) o out(B)) on the 
           "sequences are label-free and position-independent (no $, no ALIGNB, no branches): spec/Gen_Prog.tla flavour 'pic'"]
 
 
+def form_classes():
+    """Groups of statements that agree in mnemonic and operand TYPES but need different forms (used by C14 and, as whole programs, by C10)."""
+    R8_, R16_, R32_ = (lambda n: {"t": "r", "w": 8, "n": n}), (lambda n: {"t": "r", "w": 16, "n": n}), (lambda n: {"t": "r", "w": 32, "n": n})
+    I_ = lambda v: {"t": "i", "v": v, "sty": "d"}
+    MA = lambda d: {"t": "m", "w": 0, "aw": 0, "b": -1, "x": -1, "sc": 1, "d": d, "hd": 1, "sty": "h"}
+    M16_ = lambda b: {"t": "m", "w": 0, "aw": 16, "b": b, "x": -1, "sc": 1, "d": 0, "hd": 0}
+    M32_ = lambda b: {"t": "m", "w": 0, "aw": 32, "b": b, "x": -1, "sc": 1, "d": 0, "hd": 0}
+    ins = lambda mn, *ops: {"k": "ins", "mn": mn, "ops": list(ops)}
+    classes = {16: [[ins("MOV", R16_(0), MA(0x1234)), ins("MOV", R16_(0), M16_(3)), ins("MOV", R16_(0), M16_(6))],
+                    [ins("MOV", R8_(0), MA(0x1234)), ins("MOV", R8_(0), M16_(6)), ins("MOV", R8_(1), M16_(6))],
+                    [ins("MOV", MA(0x1234), R16_(0)), ins("MOV", M16_(3), R16_(0))],
+                    [ins("ADD", R16_(0), I_(1)), ins("ADD", R16_(0), I_(1000)), ins("ADD", R16_(3), I_(1)), ins("ADD", R16_(3), I_(1000))],
+                    [ins("ADD", R8_(0), I_(1)), ins("ADD", R8_(3), I_(1)), ins("CMP", R8_(0), I_(1)), ins("CMP", R8_(3), I_(1))],
+                    [ins("CMP", R16_(0), R16_(3)), ins("CMP", R16_(3), R16_(0))],
+                    [ins("IN", R8_(0), I_(0x60)), ins("IN", R8_(0), R16_(2)), ins("OUT", I_(0x60), R8_(0)), ins("OUT", R16_(2), R8_(0))],
+                    [ins("SHL", R16_(0), I_(1)), ins("SHL", R16_(0), I_(4)), ins("SHR", R16_(0), I_(1))],
+                    [ins("MOV", R16_(0), I_(1)), ins("MOV", R16_(3), I_(1)), ins("MOV", R8_(0), I_(1))]],
+               32: [[ins("MOV", R32_(0), MA(0x1234)), ins("MOV", R32_(0), M32_(3)), ins("MOV", R32_(0), M32_(6))],
+                    [ins("MOV", MA(0x1234), R32_(0)), ins("MOV", M32_(3), R32_(0))],
+                    [ins("ADD", R32_(0), I_(1)), ins("ADD", R32_(3), I_(1)), ins("SUB", R32_(0), I_(1)), ins("SUB", R32_(3), I_(1))],
+                    [ins("MOV", R32_(0), R32_(3)), ins("MOV", R32_(3), R32_(0))]]}
+    # memory shapes that share operand TYPES (r, m) but select different forms: absolute (moffs for the accumulator), index without
+    # base, base + index, base + disp8 / disp32 - with the accumulator and with another register, load and store
+    MX = lambda aw, b, x, sc, d: {"t": "m", "w": 0, "aw": aw, "b": b, "x": x, "sc": sc, "d": d, "hd": 1 if d else 0, "sty": "h"}
+    shapes32 = [MA(0x1000), MX(32, -1, 1, 4, 0x2000), MX(32, 3, 6, 1, 0), MX(32, 3, -1, 1, 8), MX(32, 3, -1, 1, 0x1000), MX(32, 5, 7, 2, 0x10)]
+    shapes16 = [MA(0x1000), MX(16, 3, 6, 1, 0), MX(16, 5, -1, 1, 2), MX(16, 3, -1, 1, 0x300), MX(16, 6, -1, 1, 0)]
+    classes[32] += [[ins("MOV", R32_(0), m) for m in shapes32], [ins("MOV", m, R32_(0)) for m in shapes32],
+                    [ins("MOV", R8_(0), m) for m in shapes32[:4]], [ins("MOV", R32_(1), m) for m in shapes32[:4]],
+                    [ins("ADD", R32_(0), m) for m in shapes32[:4]]]
+    classes[16] += [[ins("MOV", R16_(0), m) for m in shapes16], [ins("MOV", m, R16_(0)) for m in shapes16],
+                    [ins("MOV", m, R8_(0)) for m in shapes16[:4]]]
+    return classes
+
+
 def run(ctx):
     ctx.build(need_cli=True)
     quick = ctx.tier == "quick"
@@ -98,35 +132,7 @@ def run(ctx):
     # statements that agree in mnemonic and operand TYPES but need different forms (accumulator short forms, moffs, imm8 / imm16,
     # port in DX / immediate port): each of a, b, a;b, b;a is assembled in a worker process of its own, so that anything the first
     # statement leaves behind (a memo keyed too coarsely, a flag) meets the second one in a known state
-    R8_, R16_, R32_ = (lambda n: {"t": "r", "w": 8, "n": n}), (lambda n: {"t": "r", "w": 16, "n": n}), (lambda n: {"t": "r", "w": 32, "n": n})
-    I_ = lambda v: {"t": "i", "v": v, "sty": "d"}
-    MA = lambda d: {"t": "m", "w": 0, "aw": 0, "b": -1, "x": -1, "sc": 1, "d": d, "hd": 1, "sty": "h"}
-    M16_ = lambda b: {"t": "m", "w": 0, "aw": 16, "b": b, "x": -1, "sc": 1, "d": 0, "hd": 0}
-    M32_ = lambda b: {"t": "m", "w": 0, "aw": 32, "b": b, "x": -1, "sc": 1, "d": 0, "hd": 0}
-    ins = lambda mn, *ops: {"k": "ins", "mn": mn, "ops": list(ops)}
-    classes = {16: [[ins("MOV", R16_(0), MA(0x1234)), ins("MOV", R16_(0), M16_(3)), ins("MOV", R16_(0), M16_(6))],
-                    [ins("MOV", R8_(0), MA(0x1234)), ins("MOV", R8_(0), M16_(6)), ins("MOV", R8_(1), M16_(6))],
-                    [ins("MOV", MA(0x1234), R16_(0)), ins("MOV", M16_(3), R16_(0))],
-                    [ins("ADD", R16_(0), I_(1)), ins("ADD", R16_(0), I_(1000)), ins("ADD", R16_(3), I_(1)), ins("ADD", R16_(3), I_(1000))],
-                    [ins("ADD", R8_(0), I_(1)), ins("ADD", R8_(3), I_(1)), ins("CMP", R8_(0), I_(1)), ins("CMP", R8_(3), I_(1))],
-                    [ins("CMP", R16_(0), R16_(3)), ins("CMP", R16_(3), R16_(0))],
-                    [ins("IN", R8_(0), I_(0x60)), ins("IN", R8_(0), R16_(2)), ins("OUT", I_(0x60), R8_(0)), ins("OUT", R16_(2), R8_(0))],
-                    [ins("SHL", R16_(0), I_(1)), ins("SHL", R16_(0), I_(4)), ins("SHR", R16_(0), I_(1))],
-                    [ins("MOV", R16_(0), I_(1)), ins("MOV", R16_(3), I_(1)), ins("MOV", R8_(0), I_(1))]],
-               32: [[ins("MOV", R32_(0), MA(0x1234)), ins("MOV", R32_(0), M32_(3)), ins("MOV", R32_(0), M32_(6))],
-                    [ins("MOV", MA(0x1234), R32_(0)), ins("MOV", M32_(3), R32_(0))],
-                    [ins("ADD", R32_(0), I_(1)), ins("ADD", R32_(3), I_(1)), ins("SUB", R32_(0), I_(1)), ins("SUB", R32_(3), I_(1))],
-                    [ins("MOV", R32_(0), R32_(3)), ins("MOV", R32_(3), R32_(0))]]}
-    # memory shapes that share operand TYPES (r, m) but select different forms: absolute (moffs for the accumulator), index without
-    # base, base + index, base + disp8 / disp32 - with the accumulator and with another register, load and store
-    MX = lambda aw, b, x, sc, d: {"t": "m", "w": 0, "aw": aw, "b": b, "x": x, "sc": sc, "d": d, "hd": 1 if d else 0, "sty": "h"}
-    shapes32 = [MA(0x1000), MX(32, -1, 1, 4, 0x2000), MX(32, 3, 6, 1, 0), MX(32, 3, -1, 1, 8), MX(32, 3, -1, 1, 0x1000), MX(32, 5, 7, 2, 0x10)]
-    shapes16 = [MA(0x1000), MX(16, 3, 6, 1, 0), MX(16, 5, -1, 1, 2), MX(16, 3, -1, 1, 0x300), MX(16, 6, -1, 1, 0)]
-    classes[32] += [[ins("MOV", R32_(0), m) for m in shapes32], [ins("MOV", m, R32_(0)) for m in shapes32],
-                    [ins("MOV", R8_(0), m) for m in shapes32[:4]], [ins("MOV", R32_(1), m) for m in shapes32[:4]],
-                    [ins("ADD", R32_(0), m) for m in shapes32[:4]]]
-    classes[16] += [[ins("MOV", R16_(0), m) for m in shapes16], [ins("MOV", m, R16_(0)) for m in shapes16],
-                    [ins("MOV", m, R8_(0)) for m in shapes16[:4]]]
+    classes = form_classes()
     ncoll = 0
     for bits, cls in classes.items():
         pre = [{"k": "bits", "v": 32}] if bits == 32 else []
